@@ -210,7 +210,7 @@ template <class InSlice> static void gen_faults(Emitter &em, const Options &opt,
         }
     }
     // random histories followed by one random operation with its allocation failing
-    int nrand = thorough ? 40000 : 3000;
+    int nrand = thorough ? 24000 : 3000;
     for (int i = 0; i < nrand; ++i) {
         const FaultTy &ty = types[i % 4];
         GenState g; g.L = ty.L; g.w = ty.bits;
